@@ -5,8 +5,39 @@ From Verif Require Import Prelude Model.Roadm.
 Open Scope Q_scope.
 
 (* ---------- rendering ---------- *)
+(* numbers are rendered as  <hex numerator>/<hex denominator>  (unreduced): conversion from binary is linear, whereas
+   decimal rendering of the 200-bit numerators that squared picoseconds produce dominated the run time *)
+Fixpoint pos_bits (p : positive) : list bool :=
+  match p with xH => [true] | xO q => false :: pos_bits q | xI q => true :: pos_bits q end.
+Definition hexdigit (b0 b1 b2 b3 : bool) : ascii :=
+  let n := ((if b0 then 1 else 0) + (if b1 then 2 else 0) + (if b2 then 4 else 0) + (if b3 then 8 else 0))%nat in
+  ascii_of_nat (if Nat.ltb n 10 then 48 + n else 87 + n).
+(* least significant nibble first; acc accumulates the string most significant digit first *)
+Fixpoint hex_acc (l : list bool) (fuel : nat) (acc : string) : string :=
+  match fuel with
+  | O => acc
+  | S f =>
+      match l with
+      | [] => acc
+      | [b0] => String (hexdigit b0 false false false) acc
+      | [b0; b1] => String (hexdigit b0 b1 false false) acc
+      | [b0; b1; b2] => String (hexdigit b0 b1 b2 false) acc
+      | b0 :: b1 :: b2 :: b3 :: t => hex_acc t f (String (hexdigit b0 b1 b2 b3) acc)
+      end
+  end.
+Definition pos_hex (p : positive) : string := let l := pos_bits p in hex_acc l (length l) EmptyString.
+Definition z_hex (z : Z) : string :=
+  match z with Z0 => "0"%string | Zpos p => pos_hex p | Zneg p => append "-" (pos_hex p) end.
+(* every input is a float, so every denominator is a power of two: cancelling the common trailing zero bits reduces
+   the fraction (linear; Qred's gcd on the 800-bit unreduced results was the dominant cost) *)
+Fixpoint strip2 (n d : positive) : positive * positive :=
+  match n, d with xO n', xO d' => strip2 n' d' | _, _ => (n, d) end.
 Definition q_s (q : Q) : string :=
-  let r := Qred q in append (zs (Qnum r)) (append "/" (zs (Zpos (Qden r)))).
+  match Qnum q with
+  | Z0 => "0/1"%string
+  | Zpos n => let (a, b) := strip2 n (Qden q) in append (pos_hex a) (append "/" (pos_hex b))
+  | Zneg n => let (a, b) := strip2 n (Qden q) in append "-" (append (pos_hex a) (append "/" (pos_hex b)))
+  end.
 Definition qlist_s (l : list Q) : string := join "," (map q_s l).
 Definition dict_s (l : list (Z * Q)) : string :=
   join "," (map (fun kv => append (zs (fst kv)) (append "=" (q_s (snd kv)))) l).
